@@ -1,10 +1,13 @@
 SPECIFICATION Spec
 CONSTANTS RootPostOverwrites = FALSE
           FallbackWritten = TRUE
+          CarryInvalid = TRUE
+          HackPositions = {}
           NR = 3
 INVARIANT Partition
 INVARIANT CardMeetsTarget
 INVARIANT FailedUnchanged
 INVARIANT ReportedIsWrittenModuloKnown
 INVARIANT ReportedIsWrittenModuloF6
+INVARIANT OutputWritten
 CHECK_DEADLOCK FALSE
